@@ -201,6 +201,21 @@ func c18Exec(op string) string {
 		}
 		// the two escaping switches are never both on
 		o := mxj.VerifOptions()
+		// documented reset forms give the documented default
+		switch {
+		case cl.name == "SetFieldSeparator" && (cl.arg == nil || cl.arg == ""):
+			if o["fieldSep"] != ":" {
+				notes = append(notes, fmt.Sprintf("RESET SetFieldSeparator(%v) left the separator %q instead of the default", cl.arg, o["fieldSep"]))
+			}
+		case cl.name == "XmlDefaultEmptyElemSyntax":
+			if o["useGoXmlEmptyElemSyntax"] != "false" {
+				notes = append(notes, "RESET XmlDefaultEmptyElemSyntax() did not restore the default element syntax")
+			}
+		case cl.name == "PrependAttrWithHyphen" && cl.arg == true:
+			if o["attrPrefix"] != "-" {
+				notes = append(notes, "RESET PrependAttrWithHyphen(true) did not restore the hyphen prefix")
+			}
+		}
 		if o["xmlEscapeChars"] == "true" && o["xmlEscapeCharsDecoder"] == "true" {
 			notes = append(notes, "both escaping switches are on")
 		}
